@@ -1,5 +1,6 @@
 import TracklibVerif.Lemmas.DTWTable
 import TracklibVerif.Lemmas.FDTW
+import TracklibVerif.Lemmas.DTWFront
 import Mathlib.Algebra.Order.Field.Basic
 import Mathlib.Tactic.Ring
 import Mathlib.Algebra.Order.Ring.Rat
@@ -123,8 +124,7 @@ variable {α : Type} [Field α] [LinearOrder α] [IsStrictOrderedRing α]
 /-- `_p2weight(p)` is monotone in the accumulated cost for `p = 1, 2, inf` -/
 theorem weight_mono (p : PNorm) (a b d : α) (h : a ≤ b) : weight p a d ≤ weight p b d := by
   cases p with
-  | one => exact add_le_add h le_rfl
-  | two => exact add_le_add h le_rfl
+  | nat k => cases k <;> exact add_le_add h le_rfl
   | inf =>
     simp only [weight, pmax]
     by_cases h1 : a < d <;> by_cases h2 : b < d <;> simp only [h1, h2, if_true, if_false]
@@ -180,7 +180,7 @@ theorem match_correct (sqrt : α → α) (big : α) (mode : Mode) (hm : mode ≠
       matchTracks sqrt big mode p dim u v = .ok o := by
     intro u v hu o ho
     have hne : u.isEmpty = false := by cases u with | nil => simp at hu | cons _ _ => rfl
-    unfold matchTracks
+    rw [matchTracks_unfold]
     unfold weightOf at ho
     cases mode with
     | fdtw => exact absurd rfl hm
@@ -213,11 +213,24 @@ theorem distance_nonneg (sqrt : α → α) (hsqrt : ∀ x, 0 ≤ sqrt x) (dim : 
     · simp only [h2, if_true]; exact hsqrt _
     · simp only [h2, if_false]; exact hsqrt _
 
+/-- `B**k ≥ 0` for `B ≥ 0` -/
+theorem npow_nonneg (d : α) (hd : 0 ≤ d) : ∀ k, 0 ≤ npow d k
+  | 0 => zero_le_one
+  | 1 => hd
+  | k+2 => mul_nonneg (npow_nonneg d hd (k+1)) hd
+
 /-- `_p2weight(p)` is inflationary on non-negative distances -/
 theorem weight_infl (p : PNorm) (a d : α) (hd : 0 ≤ d) : a ≤ weight p a d := by
   cases p with
-  | one => exact le_add_of_nonneg_right hd
-  | two => exact le_add_of_nonneg_right (mul_self_nonneg d)
+  | nat k =>
+    cases k with
+    | zero =>
+      simp only [weight]
+      apply le_add_of_nonneg_right
+      split
+      · exact zero_le_one
+      · exact le_rfl
+    | succ k => exact le_add_of_nonneg_right (npow_nonneg d hd (k+1))
   | inf =>
     simp only [weight, pmax]
     by_cases h : a < d
@@ -249,8 +262,8 @@ theorem match_fdtw_correct (sqrt : α → α) (hsqrt : ∀ x, 0 ≤ sqrt x) (big
   cases Option.some.inj e3
   have hne : t1.isEmpty = false := by cases t1 with | nil => simp at h1 | cons _ _ => rfl
   refine ⟨ofast, od, ?_, ?_, hs, hc, hcost, hnb, hr, hcov⟩
-  · unfold matchTracks; simp [hne, e2]
-  · unfold matchTracks; simp [hne, e1]
+  · rw [matchTracks_unfold]; simp [hne, e2]
+  · rw [matchTracks_unfold]; simp [hne, e1]
 
 end field
 
